@@ -28,6 +28,25 @@ VStr(cs)   == [v |-> "str", cs |-> cs]
 \* for the small k the programs reach, "the same multiple" is "the same point" and the group law is integer arithmetic on k.
 VPoint(g, k) == [v |-> "point", g |-> g, k |-> k]
 IsAscii(bs) == \A i \in 1..Len(bs) : bs[i] < 128
+\* well-formed UTF-8 (shortest forms only, no surrogates, nothing beyond U+10FFFF): what `decodeUtf8` accepts. A String is kept as its bytes.
+IsCont8(b) == b >= 128 /\ b < 192
+RECURSIVE ValidUtf8(_)
+ValidUtf8(bs) ==
+    IF bs = <<>> THEN TRUE
+    ELSE LET b == bs[1] n == Len(bs) IN
+    IF b < 128 THEN ValidUtf8(Tail(bs))
+    ELSE IF b >= 194 /\ b < 224 THEN n >= 2 /\ IsCont8(bs[2]) /\ ValidUtf8(SubSeq(bs, 3, n))
+    ELSE IF b >= 224 /\ b < 240 THEN
+         /\ n >= 3 /\ IsCont8(bs[2]) /\ IsCont8(bs[3])
+         /\ (b = 224 => bs[2] >= 160)          \* not an overlong form
+         /\ (b = 237 => bs[2] < 160)           \* not a surrogate
+         /\ ValidUtf8(SubSeq(bs, 4, n))
+    ELSE IF b >= 240 /\ b < 245 THEN
+         /\ n >= 4 /\ IsCont8(bs[2]) /\ IsCont8(bs[3]) /\ IsCont8(bs[4])
+         /\ (b = 240 => bs[2] >= 144)          \* not an overlong form
+         /\ (b = 244 => bs[2] < 144)           \* not beyond U+10FFFF
+         /\ ValidUtf8(SubSeq(bs, 5, n))
+    ELSE FALSE
 VVoid      == [v |-> "void"]
 VList(xs)  == [v |-> "list", xs |-> xs]
 VTuple(xs) == [v |-> "tuple", xs |-> xs]
@@ -112,7 +131,7 @@ FromDataSeq(types, tys, ds, acc) ==       \* positional; Len(tys) = Len(ds) is c
 FromData(types, ty, d) ==
     CASE ty.t = "Int"       -> IF d.d = "I" THEN YesV(VInt(d.v)) ELSE NoV
       [] ty.t = "ByteArray" -> IF d.d = "B" THEN YesV(VBytes(d.v)) ELSE NoV
-      [] ty.t = "String"    -> IF d.d = "B" /\ IsAscii(d.v) THEN YesV(VStr(d.v)) ELSE NoV      \* (non-ASCII bytes: not generated)
+      [] ty.t = "String"    -> IF d.d = "B" /\ ValidUtf8(d.v) THEN YesV(VStr(d.v)) ELSE NoV     \* text travels as its UTF-8 bytes
       [] ty.t = "Bool"      -> IF d.d = "C" /\ d.fs = <<>> /\ d.tag \in {0, 1} THEN YesV(VBool(d.tag = 1)) ELSE NoV
       [] ty.t = "Void"      -> IF d.d = "C" /\ d.fs = <<>> /\ d.tag = 0 THEN YesV(VVoid) ELSE NoV
       [] ty.t = "Data"      -> YesV(VData(d))
